@@ -40,6 +40,7 @@ struct Net {
     int nextFd = 1000;
     uint64_t syscalls = 0, budget = 1000000;
     time_t now = 1500000000;
+    bool refusedReadable = true;               // a refused non-blocking connect is reported by poll() as on Linux (IN|OUT|ERR|HUP as far as requested); false: bare ERR|HUP (+OUT)
     // hooks (all optional)
     std::function<int(const std::string &host, const std::string &service)> onResolve;      // 0 or an EAI_* code
     std::function<ConnectPlan(Conn &)> onConnect;
